@@ -287,6 +287,11 @@ func (c06) Exec(h []Ev) []Ev {
 					panic("TableHeaderFromBytes rejected its own encoding")
 				}
 				e["back_tid"], e["back_ssi"], e["back_priv"], e["back_slen"] = int(back.TableID), back.SectionSyntaxIndicator, back.PrivateIndicator, int(back.SectionLength)
+				// the two trivial constructors: an all-zero header, and pointer_field n followed by n filler bytes
+				z := psi.NewTableHeader()
+				e["zero_hdr"] = z.TableID == 0 && !z.SectionSyntaxIndicator && !z.PrivateIndicator && z.SectionLength == 0
+				n := GI(e["slen"]) % 256
+				e["pf_n"], e["pf"] = n, B(psi.NewPointerField(n))
 			}
 			for i, pmt := range held {
 				if c06Snapshot(pmt) != heldObs[i] {
